@@ -496,6 +496,23 @@ def write_replay(pid, s, res, ob, tier, idx):
                 native_note = "native-replay-reproduced"
         except Exception as e:  # replay problems never mask the violation
             native_out = "native replay failed to run: %r" % (e,)
+    cex = s.get("cex")
+    if cex and native_note != "native-replay-reproduced" and tr and not tr.startswith("(trace omitted"):
+        vals = []
+        for v in cex["vars"]:
+            m = re.findall(r"(?<![\w$.])" + re.escape(v) + r" = (-?\d+)", tr)
+            vals.append(m[-1] if m else None)
+        if all(v is not None for v in vals):
+            try:
+                import replay as replaymod
+                ok, txt = replaymod.run_cex(cex["prog"], vals)
+                native_out = (native_out + "\n" if native_out else "") + txt
+                if ok:
+                    native_note = "native-replay-reproduced"
+            except Exception as e:
+                native_out += "\ncounterexample replay failed to run: %r" % (e,)
+        else:
+            native_out += "\ncounterexample replay: trace does not give %s" % ", ".join(v for v, x in zip(cex["vars"], vals) if x is None)
     with open(path, "w") as f:
         f.write("property: %s\nobligation set: %s (%s)\nfailed obligation: %s\nfunction: %s\nlocation: %s:%s\nsource line: %s\ndescription: %s\nkey: %s\nreplay: %s\n\n"
                 % (pid, s["id"], s.get("what", ""), ob["name"], ob["function"], ob["file"], ob["line"], ob.get("src", ""), ob["desc"], ob["key"], native_note))
